@@ -64,6 +64,8 @@ const (
 //	  repeated int32 r = 9; repeated Inner ro = 10; repeated string rs = 11;
 //	  map<string,string> m = 12; map<string,Inner> mo = 13;
 //	  string z = 14;
+//	  Flat fl = 15 [(j5.ext.v1.field).object.flatten = true];   // message Flat { string fa = 1; int32 fn = 2; }
+//	  oneof pick { option (j5.ext.v1.oneof).expose = true; string px = 16; int32 pn = 17; }
 //	}
 func verifMsgUniverse() *j5schema.VerifUniverse {
 	inner := &descriptorpb.DescriptorProto{Name: proto.String("Inner"), Field: []*descriptorpb.FieldDescriptorProto{
@@ -80,8 +82,18 @@ func verifMsgUniverse() *j5schema.VerifUniverse {
 	os := vmField("os", 5, dtStr, "")
 	os.Proto3Optional = proto.Bool(true)
 	os.OneofIndex = proto.Int32(0)
+	// flattened object: its members are inlined into Root's JSON object
+	flatMsg := &descriptorpb.DescriptorProto{Name: proto.String("Flat"), Field: []*descriptorpb.FieldDescriptorProto{
+		vmField("fa", 1, dtStr, ""), vmField("fn", 2, dtI32, "")}}
+	flat := vmField("fl", 15, dtMsg, ".m.v1.Flat")
+	proto.SetExtension(flat.Options, ext_j5pb.E_Field, &ext_j5pb.FieldOptions{Type: &ext_j5pb.FieldOptions_Object{Object: &ext_j5pb.ObjectField{Flatten: true}}})
+	// exposed oneof: a real oneof of Root presented as the property "pick"
+	px, pn := vmField("px", 16, dtStr, ""), vmField("pn", 17, dtI32, "")
+	px.OneofIndex, pn.OneofIndex = proto.Int32(1), proto.Int32(1)
+	pick := &descriptorpb.OneofDescriptorProto{Name: proto.String("pick"), Options: &descriptorpb.OneofOptions{}}
+	proto.SetExtension(pick.Options, ext_j5pb.E_Oneof, &ext_j5pb.OneofOptions{Expose: true})
 	root := &descriptorpb.DescriptorProto{Name: proto.String("Root"),
-		OneofDecl: []*descriptorpb.OneofDescriptorProto{{Name: proto.String("_os")}},
+		OneofDecl: []*descriptorpb.OneofDescriptorProto{{Name: proto.String("_os")}, pick},
 		NestedType: []*descriptorpb.DescriptorProto{
 			vmEntry("MEntry", vmField("value", 2, dtStr, "")),
 			vmEntry("MoEntry", vmField("value", 2, dtMsg, ".m.v1.Inner")),
@@ -93,12 +105,13 @@ func verifMsgUniverse() *j5schema.VerifUniverse {
 			vmRepeated(vmField("r", 9, dtI32, "")), vmRepeated(vmField("ro", 10, dtMsg, ".m.v1.Inner")), vmRepeated(vmField("rs", 11, dtStr, "")),
 			vmRepeated(vmField("m", 12, dtMsg, ".m.v1.Root.MEntry")), vmRepeated(vmField("mo", 13, dtMsg, ".m.v1.Root.MoEntry")),
 			vmField("z", 14, dtStr, ""),
+			flat, px, pn,
 		}}
 	ev := func(name string, n int32) *descriptorpb.EnumValueDescriptorProto {
 		return &descriptorpb.EnumValueDescriptorProto{Name: proto.String(name), Number: proto.Int32(n)}
 	}
 	fdp := &descriptorpb.FileDescriptorProto{Name: proto.String("m/v1/m.proto"), Package: proto.String("m.v1"), Syntax: proto.String("proto3"),
-		MessageType: []*descriptorpb.DescriptorProto{inner, choice, root},
+		MessageType: []*descriptorpb.DescriptorProto{inner, choice, flatMsg, root},
 		EnumType:    []*descriptorpb.EnumDescriptorProto{{Name: proto.String("E"), Value: []*descriptorpb.EnumValueDescriptorProto{ev("E_UNSPECIFIED", 0), ev("E_ONE", 1), ev("E_TWO", 2)}}}}
 	return j5schema.VerifNewUniverse(fdp)
 }
@@ -333,7 +346,7 @@ func (vb *vmBuilder) draw() (*j5schema.VerifDynMessage, *refNode) {
 		m.Set(fd("a"), protoreflect.ValueOfString("x"))
 		want.add("a", rnStr("x"))
 	}
-	family := ndChoice("family", 7)
+	family := ndChoice("family", 9)
 	if only := verifParam("family", -1); only >= 0 && only != family {
 		verifAssume(false)
 	}
@@ -467,6 +480,43 @@ func (vb *vmBuilder) draw() (*j5schema.VerifDynMessage, *refNode) {
 		m.Set(fd("z"), protoreflect.ValueOfString("y"))
 		want.add("z", rnStr("y"))
 	}
+	switch family {
+	case 7: // flattened object: members inlined after z; an empty one leaves no trace
+		if ndBool("fl-set") {
+			fm := vb.u.Message("m.v1.Flat")
+			in := j5schema.VerifNewDynMessage(fm)
+			a := vb.text("fl.fa", S)
+			if len(a) > 0 {
+				in.Set(fm.Fields().ByName("fa"), protoreflect.ValueOfString(a))
+				want.add("fa", rnStr(a))
+			}
+			v := int32(ndIntRange("fl.fn", -1, 1))
+			if v != 0 {
+				in.Set(fm.Fields().ByName("fn"), protoreflect.ValueOfInt32(v))
+				want.add("fn", rnNum(int64(v)))
+			}
+			m.Set(fd("fl"), protoreflect.ValueOfMessage(in))
+		}
+	case 8: // exposed oneof
+		switch ndChoice("pick", 3) {
+		case 1:
+			sv := vb.text("px", S)
+			m.Set(fd("px"), protoreflect.ValueOfString(sv))
+			tn := &refNode{kind: 'o'}
+			tn.add("!type", rnStr("px"))
+			tn.add("px", rnStr(sv))
+			want.add("pick", tn)
+		case 2:
+			v := ndInt32("pn")
+			verifAssume(v > -10000)
+			verifAssume(v < 10000)
+			m.Set(fd("pn"), protoreflect.ValueOfInt32(v))
+			tn := &refNode{kind: 'o'}
+			tn.add("!type", rnStr("pn"))
+			tn.add("pn", rnNum(int64(v)))
+			want.add("pick", tn)
+		}
+	}
 	return m, want
 }
 
@@ -583,8 +633,9 @@ func HarnessMessageRoundTrip() {
 	if derr != nil {
 		return
 	}
-	vmEqual(msg, back, "-roundtrip")
-	vmEqual(back, msg, "-roundtrip-reverse")
+	// (an empty flattened sub-object is treated as absent: vmSame)
+	vmSame(msg, back, "-roundtrip")
+	vmSame(back, msg, "-roundtrip-reverse")
 }
 
 // ---------- decode direction: arbitrary documents into a real message ----------
@@ -664,7 +715,7 @@ func jValue(tag string) *jnode {
 		first := ""
 		for i := 0; i < k; i++ {
 			if i == 0 {
-				first = []string{"a", "n", "o", "!type", "zz"}[ndChoice(tag+"-key", 5)]
+				first = []string{"a", "n", "o", "!type", "zz", "px", "pn"}[ndChoice(tag+"-key", 7)]
 				n.members = append(n.members, jmember{key: first, val: jInner(tag + "." + first)})
 			} else {
 				key := []string{first, "a", "!type"}[ndChoice(tag+"-key2", 3)]
@@ -749,11 +800,56 @@ func (v *vmVerdict) readSingular(u *j5schema.VerifUniverse, f protoreflect.Field
 }
 
 func (v *vmVerdict) readMessage(u *j5schema.VerifUniverse, md *j5schema.VerifMessage, members []jmember) *j5schema.VerifDynMessage {
-	isOneof := md.FullName() == "m.v1.Choice"
 	out := j5schema.VerifNewDynMessage(md)
+	isRoot := md.FullName() == "m.v1.Root"
+	var flat *j5schema.VerifDynMessage
+	resolve := func(key string) (*j5schema.VerifDynMessage, protoreflect.FieldDescriptor) {
+		if isRoot {
+			switch key {
+			case "fa", "fn": // members of the flattened object fl
+				fm := u.Message("m.v1.Flat")
+				if flat == nil {
+					flat = j5schema.VerifNewDynMessage(fm)
+					out.Set(md.Fields().ByName("fl"), protoreflect.ValueOfMessage(flat))
+				}
+				return flat, fm.Fields().ByJSONName(key)
+			case "fl", "px", "pn": // not properties themselves (flattened / inside the exposed oneof)
+				return nil, nil
+			}
+		}
+		f := md.Fields().ByJSONName(key)
+		if f == nil {
+			return nil, nil
+		}
+		return out, f
+	}
+	v.readMembers(u, members, md.FullName() == "m.v1.Choice", resolve, func(ms []jmember) {
+		// the exposed oneof "pick" of Root: an object holding one of px / pn
+		v.readMembers(u, ms, true, func(key string) (*j5schema.VerifDynMessage, protoreflect.FieldDescriptor) {
+			if key == "px" || key == "pn" {
+				return out, md.Fields().ByJSONName(key)
+			}
+			return nil, nil
+		}, nil, false)
+	}, isRoot)
+	return out
+}
+
+// readMembers: the members of one JSON object against a set of properties
+// (resolve gives the message and field a key stands for). pick handles the
+// value of Root's exposed oneof.
+func (v *vmVerdict) readMembers(u *j5schema.VerifUniverse, members []jmember, isOneof bool,
+	resolve func(string) (*j5schema.VerifDynMessage, protoreflect.FieldDescriptor), pick func([]jmember), hasPick bool) {
 	seen := map[string]bool{}
 	keys := 0
 	firstKey, typeName, hasType := "", "", false
+	known := func(key string) bool {
+		if hasPick && key == "pick" {
+			return true
+		}
+		_, f := resolve(key)
+		return f != nil
+	}
 	for _, m := range members {
 		if m.key == "!type" {
 			if !isOneof {
@@ -770,7 +866,23 @@ func (v *vmVerdict) readMessage(u *j5schema.VerifUniverse, md *j5schema.VerifMes
 			}
 			continue
 		}
-		f := md.Fields().ByJSONName(m.key)
+		if hasPick && m.key == "pick" {
+			if m.val.shape == jNull {
+				continue
+			}
+			if seen[m.key] {
+				v.fail = true
+				continue
+			}
+			seen[m.key] = true
+			if m.val.shape != jObj {
+				v.fail = true
+				continue
+			}
+			pick(m.val.members)
+			continue
+		}
+		out, f := resolve(m.key)
 		if f == nil {
 			v.fail = true // unknown key
 			continue
@@ -832,14 +944,13 @@ func (v *vmVerdict) readMessage(u *j5schema.VerifUniverse, md *j5schema.VerifMes
 			v.fail = true
 		}
 		if hasType && keys == 0 {
-			if md.Fields().ByJSONName(typeName) == nil {
+			if !known(typeName) {
 				v.fail = true
 			} else {
 				v.unspecified = true // "!type" alone selects an empty arm
 			}
 		}
 	}
-	return out
 }
 
 // vmSame: equal content, where an unset message field equals one set to a
@@ -897,7 +1008,7 @@ func vmSame(a, b protoreflect.Message, tag string) {
 	}
 }
 
-var jRootKeys = []string{"a", "n", "o", "w", "r", "ro", "m", "mo", "zz", "!type"}
+var jRootKeys = []string{"a", "n", "o", "w", "r", "ro", "m", "mo", "zz", "!type", "fa", "fl", "pick", "px"}
 
 func HarnessMessageDecode() {
 	u := verifMsgUniverse()
